@@ -8,6 +8,7 @@ import (
 	"go/printer"
 	"go/token"
 	"go/types"
+	"sort"
 	"strings"
 
 	"golang.org/x/tools/go/packages"
@@ -98,6 +99,8 @@ type FuncCtx struct {
 	defs           map[string]string
 	defers         []*ast.DeferStmt
 	goDepth        int
+	inQuant        int
+	outstanding    []famInst
 	famOverride    []famInst
 }
 
@@ -150,7 +153,7 @@ func (fx *FuncCtx) freshConst(base string, sort Sort) Term {
 
 // define introduces a named abbreviation for a term (keeps terms small).
 func (fx *FuncCtx) define(base string, t Term) Term {
-	if len(t.S) < 48 {
+	if len(t.S) < 48 || fx.inQuant > 0 {
 		return t
 	}
 	name := fx.freshName(base)
@@ -223,7 +226,258 @@ func (fx *FuncCtx) pos(n ast.Node) token.Position {
 	return fx.pkg.Fset.Position(n.Pos())
 }
 
+// skolemizeGoal strips leading universal quantifiers of the goal, replacing
+// the bound variables by fresh constants (declared in the returned text).
+func skolemizeGoal(goal Term) (Term, []string, string) {
+	var sks []string
+	var decls strings.Builder
+	g := goal.S
+	for i := 0; i < 6; i++ {
+		if !strings.HasPrefix(g, "(forall ((") {
+			break
+		}
+		n := parseSx(g)
+		if len(n.kids) != 3 || len(n.kids[1].kids) != 1 || len(n.kids[1].kids[0].kids) != 2 {
+			break
+		}
+		v := n.kids[1].kids[0].kids[0].atom
+		srt := n.kids[1].kids[0].kids[1].String()
+		sk := "sk!" + v
+		decls.WriteString("(declare-const " + sk + " " + srt + ")\n")
+		g = replaceSym(n.kids[2].String(), v, sk)
+		sks = append(sks, sk)
+	}
+	return Term{g, SBool}, sks, decls.String()
+}
+
+// instantiate adds ground instances of universally quantified hypotheses for
+// the given terms (the quantified hypothesis itself is kept).
+func instantiate(h string, grounds []string, goalIdx []string, out *[]string) {
+	n := parseSx(h)
+	var guard *sx
+	if n.isApp("=>") && len(n.kids) == 3 && n.kids[2].isApp("forall") {
+		guard = n.kids[1]
+		n = n.kids[2]
+	}
+	if !n.isApp("forall") || len(n.kids) != 3 || len(n.kids[1].kids) != 1 {
+		return
+	}
+	bv := n.kids[1].kids[0]
+	if len(bv.kids) != 2 || bv.kids[1].String() != "Int" {
+		return
+	}
+	body := n.kids[2].String()
+	// matching modulo linear arithmetic: for an index (a + q + b) in the body and a
+	// goal index G, propose q := G - a - b
+	q := bv.kids[0].atom
+	var bodyIdx []string
+	{
+		acc := map[string]bool{}
+		indexTermsOnly(body, acc)
+		for t := range acc {
+			bodyIdx = append(bodyIdx, t)
+		}
+		sort.Strings(bodyIdx)
+	}
+	seen := map[string]bool{}
+	for _, g := range grounds {
+		seen[g] = true
+	}
+	for _, bi := range bodyIdx {
+		var ts []sterm
+		flattenSum(parseSx(bi), false, nil, 0, &ts)
+		var rest []sterm
+		nq := 0
+		for _, t := range ts {
+			if t.t.String() == q && !t.neg {
+				nq++
+			} else {
+				rest = append(rest, t)
+			}
+		}
+		if nq != 1 {
+			continue
+		}
+		for _, g := range goalIdx {
+			var gs []sterm
+			flattenSum(parseSx(g), false, nil, 0, &gs)
+			for _, r := range rest {
+				gs = append(gs, sterm{!r.neg, r.t})
+			}
+			c := sumOf(cancelTerms(gs)).S
+			if !seen[c] && len(c) < 200 && !strings.Contains(c, q) {
+				seen[c] = true
+				grounds = append(grounds, c)
+			}
+		}
+	}
+	if len(grounds) > 24 {
+		grounds = grounds[:24]
+	}
+	for _, g := range grounds {
+		inst := replaceSym(body, bv.kids[0].atom, g)
+		if guard != nil {
+			inst = "(=> " + guard.String() + " " + inst + ")"
+		}
+		*out = append(*out, inst)
+	}
+}
+
+// indexTerms collects the terms used as array indices in t (and their summands).
+func indexTerms(t string, acc map[string]bool) {
+	var walk func(n *sx)
+	walk = func(n *sx) {
+		if n.kids == nil {
+			return
+		}
+		if n.isApp("select") && len(n.kids) == 3 {
+			ix := n.kids[2]
+			acc[ix.String()] = true
+			if ix.isApp("+") {
+				for _, k := range ix.kids[1:] {
+					acc[k.String()] = true
+				}
+			}
+		}
+		for _, k := range n.kids {
+			walk(k)
+		}
+	}
+	walk(parseSx(t))
+}
+
+// indexTermsOnly collects the index terms of inner selects (element positions).
+func indexTermsOnly(t string, acc map[string]bool) {
+	var walk func(n *sx)
+	walk = func(n *sx) {
+		if n.kids == nil {
+			return
+		}
+		if n.isApp("select") && len(n.kids) == 3 && n.kids[1].isApp("select") {
+			acc[n.kids[2].String()] = true
+		}
+		for _, k := range n.kids {
+			walk(k)
+		}
+	}
+	walk(parseSx(t))
+}
+
+// skolemizeExists replaces existential quantifiers in positive positions of a
+// hypothesis by fresh constants.
+func skolemizeExists(h string, ctr *int, decls *strings.Builder, sks *[]string) string {
+	if !strings.Contains(h, "(exists ((") {
+		return h
+	}
+	var walk func(n *sx, pos bool) *sx
+	walk = func(n *sx, pos bool) *sx {
+		if n.kids == nil {
+			return n
+		}
+		switch {
+		case n.isApp("and") || n.isApp("or"):
+			out := &sx{kids: []*sx{n.kids[0]}}
+			for _, k := range n.kids[1:] {
+				out.kids = append(out.kids, walk(k, pos))
+			}
+			return out
+		case n.isApp("not") && len(n.kids) == 2:
+			return &sx{kids: []*sx{n.kids[0], walk(n.kids[1], !pos)}}
+		case n.isApp("=>") && len(n.kids) == 3:
+			return &sx{kids: []*sx{n.kids[0], walk(n.kids[1], !pos), walk(n.kids[2], pos)}}
+		case n.isApp("exists") && pos && len(n.kids) == 3:
+			body := n.kids[2].String()
+			for _, bv := range n.kids[1].kids {
+				if len(bv.kids) != 2 {
+					return n
+				}
+				*ctr++
+				sk := fmt.Sprintf("ske!%d!%s", *ctr, bv.kids[0].atom)
+				decls.WriteString("(declare-const " + sk + " " + bv.kids[1].String() + ")\n")
+				body = replaceSym(body, bv.kids[0].atom, sk)
+				*sks = append(*sks, sk)
+			}
+			return walk(parseSx(body), pos)
+		}
+		return n
+	}
+	return walk(parseSx(h), true).String()
+}
+
 func (fx *FuncCtx) buildQuery(hyps []Term, goal Term) string {
+	var skDecls string
+	var sks []string
+	if strings.HasPrefix(goal.S, "(forall ((") {
+		goal, sks, skDecls = skolemizeGoal(goal)
+	}
+	{
+		var db strings.Builder
+		ctr := 0
+		changed := false
+		nh := make([]Term, len(hyps))
+		for i, h := range hyps {
+			s := skolemizeExists(h.S, &ctr, &db, &sks)
+			if s != h.S {
+				changed = true
+			}
+			nh[i] = Term{s, SBool}
+		}
+		if changed {
+			hyps = nh
+			skDecls += db.String()
+		}
+	}
+	var extra []string
+	if strings.Contains(goal.S, "select") || len(sks) > 0 {
+		hasQ := false
+		for _, h := range hyps {
+			if strings.Contains(h.S, "(forall ((") {
+				hasQ = true
+				break
+			}
+		}
+		if hasQ {
+			acc := map[string]bool{}
+			for _, s := range sks {
+				acc[s] = true
+			}
+			indexTerms(goal.S, acc)
+			gi := map[string]bool{}
+			indexTermsOnly(goal.S, gi)
+			var goalIdx []string
+			for g := range gi {
+				goalIdx = append(goalIdx, g)
+			}
+			{
+				var keep []string
+				for _, g := range goalIdx {
+					if !strings.Contains(g, "q_") {
+						keep = append(keep, g)
+					}
+				}
+				goalIdx = keep
+			}
+			sort.Strings(goalIdx)
+			if len(goalIdx) > 8 {
+				goalIdx = goalIdx[:8]
+			}
+			var grounds []string
+			for g := range acc {
+				if len(g) < 200 && !strings.Contains(g, "q_") {
+					grounds = append(grounds, g)
+				}
+			}
+			sort.Strings(grounds)
+			if len(grounds) > 16 {
+				grounds = grounds[:16]
+			}
+			for _, h := range hyps {
+				if strings.Contains(h.S, "(forall ((") && len(h.S) < 4000 {
+					instantiate(h.S, grounds, goalIdx, &extra)
+				}
+			}
+		}
+	}
 	var b strings.Builder
 	b.WriteString(preamble(fx.ieee))
 	for _, d := range fx.decls {
@@ -236,9 +490,15 @@ func (fx *FuncCtx) buildQuery(hyps []Term, goal Term) string {
 		b.WriteString(f.S)
 		b.WriteString(")\n")
 	}
+	b.WriteString(skDecls)
 	for _, h := range hyps {
 		b.WriteString("(assert ")
 		b.WriteString(h.S)
+		b.WriteString(")\n")
+	}
+	for _, h := range extra {
+		b.WriteString("(assert ")
+		b.WriteString(h)
 		b.WriteString(")\n")
 	}
 	b.WriteString("(assert (not ")
@@ -263,6 +523,10 @@ func (fx *FuncCtx) ordinal(n ast.Node) int {
 		})
 	}
 	return fx.nodeOrd[n]
+}
+
+func (fx *FuncCtx) obligeKind(st *State, kind string, goal Term, node ast.Node, what string) {
+	fx.oblige(st, kind, goal, node, what)
 }
 
 // oblige records a proof obligation: hyps(st) => goal.
@@ -453,5 +717,6 @@ func (fx *FuncCtx) complexZero(s Sort) Term {
 func (fx *FuncCtx) strLit(s string) StrV {
 	id := fx.eng.strConst(s)
 	fx.declare(fmt.Sprintf("(declare-const %s Str)", id))
-	return StrV{ID: Term{id, SStr}, Len: IntLit(int64(len(s)))}
+	lit := s
+	return StrV{ID: Term{id, SStr}, Len: IntLit(int64(len(s))), Lit: &lit}
 }
